@@ -726,3 +726,51 @@ class PedGenetic(SubCheck):
 
 
 SUBCHECKS["ped_genetic"] = PedGenetic()
+
+
+# =====================================================================================================================
+# run: the same clause on run_whatshap as a whole with the REAL reader and writer (checks/phase_run.py, pedigree shapes)
+# =====================================================================================================================
+from checks import phase_run as _pr
+
+
+class Run(_pr.PhaseRun):
+    """Trio without any read; the parents are homozygous for different alleles, the child heterozygous.  Every record the
+    reader loads (the first usable record at its position) has to come out phased for the child, paternal allele first -
+    also when an unusable record (multi-ALT, non-SNV under --only-snvs) shares its position."""
+
+    name = "run"
+
+    required_cover = ["usable record behind an unusable one at the same position", "two usable records at one position", "child phased without any read"]
+
+    def filter_shapes(self, shapes):
+        return [s for s in shapes if s.get("ped")]
+
+    def judge(self, e, sc, shape, out, lists, info):
+        e.check(len(out["records"]) == len(sc.doc["records"]), "records lost", info)
+        seen_pos = set()
+        prev_unusable_here = {}
+        for ri, ro in zip(sc.doc["records"], out["records"]):
+            p = ri["pos"]
+            if not sc.usable(ri):
+                prev_unusable_here[p] = True
+                continue
+            first_usable = p not in seen_pos
+            seen_pos.add(p)
+            if not first_usable:
+                e.cover("two usable records at one position")
+                continue  # a second usable record at one position is skipped by design (duplicate position)
+            if prev_unusable_here.get(p):
+                e.cover("usable record behind an unusable one at the same position")
+            child = ro["calls"][2]
+            fa = ri["calls"][0]["GT"]
+            e.check(bool(child.get("phased")) or self.phase_statement(child), "a child-heterozygous variant with homozygous parents is left unphased although no read is needed to phase it (genetic haplotyping)",
+                    lambda: dict(info(), record=(ri["chrom"], ri["pos"], ri["alts"])))
+            e.cover("child phased without any read")
+            # (which allele comes first is the solver's business - ped_mendel; the stand-in solver here does not model it)
+
+    def classify(self, shape, v):
+        return "run:%s:same_pos=%s:kinds=%s" % (v["msg"][:60], shape.get("same_pos"), ",".join(shape["kinds"]))
+
+
+SUBCHECKS["run"] = Run()
